@@ -3,4 +3,5 @@ CONSTANTS TS <- TS3 W = 3 H = 3 FillMode = FALSE
 INVARIANT Correct
 INVARIANT WrittenOnce
 INVARIANT InBuffer
+INVARIANT StepsAgree
 CHECK_DEADLOCK FALSE
